@@ -105,6 +105,30 @@ type c13Pool struct {
 	lines   chan []byte
 	stderr  *c13Tail
 	crashes int
+	// hangs are expensive (each costs the full time-out): they are counted per scenario kind, and
+	// once the run has seen c13MaxHangs of them, every further input of a kind that has hung
+	// before is skipped (one summary record per kind at the end)
+	hangs     map[string]int
+	allHangs  int
+	skipped   map[string]int
+	lastWasHang bool
+}
+
+const (
+	c13ScenarioTimeout = 10 * time.Second // ordinary scenarios take milliseconds (virtual time included)
+	c13MaxHangs        = 5
+)
+
+// skip reports whether an input of this kind should not be run any more.
+func (p *c13Pool) skip(kind string) bool {
+	if p.hangs[kind] > 0 && p.allHangs >= c13MaxHangs {
+		if p.skipped == nil {
+			p.skipped = map[string]int{}
+		}
+		p.skipped[kind]++
+		return true
+	}
+	return false
 }
 
 func (p *c13Pool) start() {
@@ -204,15 +228,25 @@ func (p *c13Pool) do(job c13Job, timeout time.Duration) []Record {
 			p.cmd.Process.Kill()
 			p.cmd.Wait()
 			what = fmt.Sprintf("the scenario did not finish within %v (hang); the process was killed", timeout)
+			if p.hangs == nil {
+				p.hangs = map[string]int{}
+			}
+			p.hangs[job.In.Kind]++
+			p.allHangs++
+			p.lastWasHang = true
 		}
 	}
 	p.cmd = nil
 	p.crashes++
+	tag := "worker-crash"
+	if p.lastWasHang {
+		tag, p.lastWasHang = "worker-hang", false
+	}
 	kb, _ := json.Marshal(job.In)
 	obs := map[string]any{"crash": what}
 	if len(job.In.Cache) > 0 {
 		obs["cache_text"] = string(bytes.ToValidUTF8(job.In.Cache, []byte("?")))
 	}
-	return []Record{{Kind: job.In.Kind, Input: job.In, Obs: obs, Key: job.In.Kind + ":" + string(kb), Tags: append(job.Tags, "worker-crash"),
+	return []Record{{Kind: job.In.Kind, Input: job.In, Obs: obs, Key: job.In.Kind + ":" + string(kb), Tags: append(job.Tags, tag),
 		Corpus: job.Corpus, Nontrivial: true, Direct: &DirectVerdict{OK: false, What: what}}}
 }
